@@ -17,6 +17,8 @@ struct Stats {
     ended: AtomicBool, // recovery returned or finalisation began
     drops: AtomicUsize,
     counter_value: AtomicUsize,
+    /// what each call carried (the wrapper must pass everything through unchanged)
+    content: Mutex<Vec<String>>,
 }
 
 thread_local! { static CUR_EMISSION: std::cell::Cell<usize> = std::cell::Cell::new(usize::MAX); }
@@ -55,24 +57,30 @@ impl CounterFn for Cnt {
     fn absolute(&self, _: u64) {}
 }
 impl Recorder for Dbl {
-    fn describe_counter(&self, _: KeyName, _: Option<Unit>, _: SharedString) {
+    fn describe_counter(&self, n: KeyName, u: Option<Unit>, d: SharedString) {
+        self.st.content.lock().unwrap().push(format!("describe_counter|{}|{:?}|{}", n.as_str(), u, d));
         self.call()
     }
-    fn describe_gauge(&self, _: KeyName, _: Option<Unit>, _: SharedString) {
+    fn describe_gauge(&self, n: KeyName, u: Option<Unit>, d: SharedString) {
+        self.st.content.lock().unwrap().push(format!("describe_gauge|{}|{:?}|{}", n.as_str(), u, d));
         self.call()
     }
-    fn describe_histogram(&self, _: KeyName, _: Option<Unit>, _: SharedString) {
+    fn describe_histogram(&self, n: KeyName, u: Option<Unit>, d: SharedString) {
+        self.st.content.lock().unwrap().push(format!("describe_histogram|{}|{:?}|{}", n.as_str(), u, d));
         self.call()
     }
-    fn register_counter(&self, _: &Key, _: &Metadata<'_>) -> Counter {
+    fn register_counter(&self, k: &Key, m: &Metadata<'_>) -> Counter {
+        self.st.content.lock().unwrap().push(format!("register_counter|{}|{:?}|{:?}|{}", k.name(), k.labels().map(|l| format!("{}={}", l.key(), l.value())).collect::<Vec<_>>(), m.level(), m.target()));
         self.call();
         Counter::from_arc(Arc::new(Cnt(self.st.clone())))
     }
-    fn register_gauge(&self, _: &Key, _: &Metadata<'_>) -> Gauge {
+    fn register_gauge(&self, k: &Key, m: &Metadata<'_>) -> Gauge {
+        self.st.content.lock().unwrap().push(format!("register_gauge|{}|{:?}|{:?}|{}", k.name(), k.labels().map(|l| format!("{}={}", l.key(), l.value())).collect::<Vec<_>>(), m.level(), m.target()));
         self.call();
         Gauge::noop()
     }
-    fn register_histogram(&self, _: &Key, _: &Metadata<'_>) -> Histogram {
+    fn register_histogram(&self, k: &Key, m: &Metadata<'_>) -> Histogram {
+        self.st.content.lock().unwrap().push(format!("register_histogram|{}|{:?}|{:?}|{}", k.name(), k.labels().map(|l| format!("{}={}", l.key(), l.value())).collect::<Vec<_>>(), m.level(), m.target()));
         self.call();
         Histogram::noop()
     }
@@ -101,7 +109,7 @@ fn emit(s: &S, id: usize, kind: usize) {
     match kind {
         0 => s.w.describe_gauge("g".into(), None, "d".into()),
         1 => s.w.register_counter(&Key::from_name("c"), &META).increment(1),
-        2 => s.w.describe_counter("c".into(), Some(Unit::Count), "d".into()),
+        2 => s.w.describe_counter("c".into(), Some(Unit::Count), "".into()),
         // emissions made by a destructor while a panic unwinds through its frame ("record on drop" guards); the panic
         // is caught right outside
         4 | 5 => {
@@ -291,12 +299,31 @@ fn install_ok_part(res: &mut PartResult, recover: bool) {
     res.distinct_outcomes = 1;
     let all_six = |tag: usize| {
         CUR_EMISSION.with(|c| c.set(tag));
-        metrics::describe_counter!("c", Unit::Count, "d");
-        metrics::describe_gauge!("g", "d");
+        // legal but unusual arguments: a description that only carries a unit (empty text), an empty name, labels,
+        // an explicit target and level
+        metrics::describe_counter!("c", Unit::Count, "");
+        metrics::describe_gauge!("", "d");
         metrics::describe_histogram!("h", "d");
-        metrics::counter!("c").increment(2);
-        metrics::gauge!("g").set(1.0);
+        metrics::counter!("c", "k" => "v").increment(2);
+        metrics::gauge!(target: "tgt", level: Level::DEBUG, "g").set(1.0);
         metrics::histogram!("h").record(1.0);
+    };
+    let six_content = |st: &Stats| -> Result<(), String> {
+        let got = st.content.lock().unwrap().clone();
+        let want: Vec<String> = vec![
+            "describe_counter|c|Some(Count)|".into(),
+            "describe_gauge||None|d".into(),
+            "describe_histogram|h|None|d".into(),
+            format!("register_counter|c|[\"k=v\"]|{:?}|{}", Level::INFO, module_path!()),
+            format!("register_gauge|g|[]|{:?}|tgt", Level::DEBUG),
+            format!("register_histogram|h|[]|{:?}|{}", Level::INFO, module_path!()),
+        ];
+        for (i, chunk) in got.chunks(6).enumerate() {
+            if chunk != &want[..chunk.len().min(6)] || chunk.len() != 6 {
+                return Err(format!("round {} of the six operations reached the recorder as {:?}, expected {:?}", i, chunk, want));
+            }
+        }
+        Ok(())
     };
     let handle = match RecoverableRecorder::new(Dbl { magic: 0x5eed, st: st.clone() }).install() {
         Ok(h) => h,
@@ -325,6 +352,9 @@ fn install_ok_part(res: &mut PartResult, recover: bool) {
         res.transitions += 6;
     }
     let entered = st.entered.lock().unwrap().clone();
+    if let Err(e) = six_content(&st) {
+        res.violation("emission-lost-while-handle-alive", format!("through the installed wrapper: {}", e), json!({}));
+    }
     if entered != vec![1; 12] || st.counter_value.load(Ordering::SeqCst) != 4 {
         res.violation("emission-lost-while-handle-alive", format!("six operations through the installed wrapper, twice (the second time from a destructor during unwinding): {} of 12 reached the recorder, counter value {} (4 expected)", entered.len(), st.counter_value.load(Ordering::SeqCst)), json!({}));
     }
@@ -415,7 +445,7 @@ fn main() {
     driver::main(CheckDef {
         prop: "C20",
         level: "model_checking",
-        rule: "every SC interleaving (pb-bounded) of emitting threads using the wrapper returned by RecoverableRecorder (real WeakRecorder / RecoveryHandle code; Arc clone/drop/downgrade/upgrade/try_unwrap are scheduling points via the facade Arc, plus one point inside every recorder call) with a thread calling into_inner() or dropping the handle, emissions also made by a destructor while a caught panic unwinds through its frame; the double counts calls in flight, calls entering after the end, drops; epilogue emissions must be inert; plus process-level histories: a failing install(), and a successful install() followed by the six operations through the facade macros (normally and from a destructor during unwinding), a second (failing) install, into_inner() or drop(handle), and the six operations again; distinct = distinct (emissions that reached the recorder) outcomes",
+        rule: "every SC interleaving (pb-bounded) of emitting threads using the wrapper returned by RecoverableRecorder (real WeakRecorder / RecoveryHandle code; Arc clone/drop/downgrade/upgrade/try_unwrap are scheduling points via the facade Arc, plus one point inside every recorder call) with a thread calling into_inner() or dropping the handle, emissions also made by a destructor while a caught panic unwinds through its frame; the double counts calls in flight, calls entering after the end, drops; epilogue emissions must be inert; plus process-level histories: a failing install(), and a successful install() followed by the six operations through the facade macros with unusual but legal arguments (empty description carrying only a unit, empty name, labels, explicit target and level; normally and from a destructor during unwinding; what reaches the recorder is compared field by field), a second (failing) install, into_inner() or drop(handle), and the six operations again; distinct = distinct (emissions that reached the recorder) outcomes",
         assumptions: &["sequential consistency", "the wrapper is obtained through the guarded verif_build() (the same private build() that install() uses) instead of being installed as the process-global recorder"],
         parts,
         run,
